@@ -73,7 +73,7 @@ pub fn run(rep: &Report) {
     rep.assume("subsets of windows with more pending operations than exhaustive_w are sampled, tearing is sampled");
     let (n_cases, budget, depth, max_steps, rec_every, rec_cap) = match rep.tier {
         Tier::Quick => (16u64, CrashBudget::quick(), 1u32, 12usize, 23u64, 10usize),
-        Tier::Thorough => (400u64, CrashBudget::thorough(), 2u32, 30usize, 7u64, 24usize),
+        Tier::Thorough => (160u64, CrashBudget::thorough(), 2u32, 30usize, 7u64, 24usize),
     };
     rep.extra("budget", json!(format!("{budget:?}")));
     run_cases(
